@@ -22,7 +22,8 @@ fn data_size(v: &Val) -> usize {
     match v {
         Val::NatN(b, _) => (*b / 8) as usize,
         Val::Text(s) => s.len(),
-        Val::Vec(xs) => xs.iter().map(data_size).sum(),
+        // DataSize estimates memory usage: a Vec counts its own header (3 words) plus its elements
+        Val::Vec(xs) => std::mem::size_of::<Vec<u8>>() + xs.iter().map(data_size).sum::<usize>(),
         Val::Principal(p) => p.len(),
         _ => 0,
     }
@@ -103,7 +104,7 @@ pub fn decode_only() -> Vec<DecodeOnly> {
     bounded!(v, UNBOUNDED, 16, UNBOUNDED, u64, p(Prim::Nat64));
     bounded!(v, UNBOUNDED, 3, UNBOUNDED, String, p(Prim::Text));
     bounded!(v, UNBOUNDED, UNBOUNDED, 1, String, p(Prim::Text));
-    bounded!(v, 2, 3, 2, Vec<u8>, Ty::vec(p(Prim::Nat8)));
+    bounded!(v, 2, 60, 25, Vec<u8>, Ty::vec(p(Prim::Nat8)));
     bounded!(v, 3, UNBOUNDED, 1, Principal, p(Prim::Principal));
     v
 }
